@@ -5,6 +5,7 @@ CONSTANTS
   Dev_h12 = TRUE
   Dev_h13 = TRUE
   Dev_ownerAbsent = TRUE
+  Dev_length = FALSE
   Emit = FALSE
-INVARIANTS AuthUserSound AuthUserComplete AuthOwnerSound AuthOwnerComplete KeyAgreement NoKeyWithoutAuth Plaintext Shapes ImplDictRefines ImplKeyRefines ImplItemRefines ImplOpens ImplRejects EmitInv
+INVARIANTS AuthUserSound AuthUserComplete AuthOwnerSound AuthOwnerComplete KeyAgreement NoKeyWithoutAuth Plaintext Shapes ImplDictRefines ImplKeyRefines ImplItemRefines ImplOpens ImplRejects LengthAgreement ImplLengthRefines EmitInv
 CHECK_DEADLOCK FALSE
